@@ -52,6 +52,13 @@ CHECKS = {
         'note': TB + 'Not decided: the hidden-shift promise, unit norm, numerator arithmetic, gate-kind probabilities.',
         'technique': 'call-graph reachability with receiver-rooted determinism rule, zone-domain abstract interpretation, structural pairing rules',
     },
+    'C20': {
+        'text': 'Static: on every path to return detection_webs writes back the inputs/outputs it saved before the first setter, each to its own '
+                'setter; the node order handed to the positional [I|N] block construction has the boundary vertices first whatever their ids (recognised '
+                'idioms: stable sort keyed by vertex_type != B, or a first segment filtered on vertex_type == B) and that order is the one used for the adjacency matrix.',
+        'note': TB + 'D2 is a necessary condition of numbering independence only. Not decided: validity, independence, completeness of the webs.',
+        'technique': 'save/clobber/restore pairing with provenance on all paths; must-fact rule at the point where the node order is built',
+    },
 }
 
 _PENDING = 'check under construction in this round (rules designed in DESIGN.md section 5; not yet registered)'
